@@ -112,7 +112,9 @@ def network(draw, unbalanced=False, hazards=()):
     # passing style per fiber: which channels arrive as arguments (the rest are captured module variables)
     # 3: like 1, but the fiber's function is a closure made on the spot by a maker (launch mk(tag, chans)()): its
     # captures are referenced by nothing but the running frame
-    argstyle = [draw(st.integers(0, 3)) for _ in range(nf + 1)]
+    # 4: like 1, but the fiber's function is a method of an instance that keeps the tag (launch FiberK(tag).run(chans)):
+    # the new fiber's receiver slot must hold the instance
+    argstyle = [draw(st.integers(0, 4)) for _ in range(nf + 1)]
     tags = [draw(st.integers(1, 99)) for _ in range(nf + 1)]
     # payload style: plain numbers, or every value boxed in a fresh list (a heap object that only the channel's
     # buffer / the parked sender keeps alive while it is in flight)
@@ -306,7 +308,7 @@ def build_program(net):
         cs = used(f)
         if style == 0:
             return []
-        if style in (1, 3):
+        if style in (1, 3, 4):
             return cs
         return cs[::2]
 
@@ -338,7 +340,9 @@ def build_program(net):
                 t = op[1]
                 tparams = params_of(t)
                 args = [N(net["tags"][t])] + [cref(f, c, params) for c in tparams]
-                if net["argstyle"][t] == 3:
+                if net["argstyle"][t] == 4:
+                    body.append(("launch", ("call", ("prop", ("call", V("Fiber%d" % t), args[:1]), "run"), args[1:])))
+                elif net["argstyle"][t] == 3:
                     body.append(("launch", ("call", ("call", V("fiber%d" % t), args), [])))
                 else:
                     body.append(("launch", ("call", V("fiber%d" % t), args)))
@@ -381,7 +385,11 @@ def build_program(net):
     # functions are module level symbols, so forward references between them resolve at run time
     for f in range(1, nfib):
         params, body = bodies[f]
-        if net["argstyle"][f] == 3:
+        if net["argstyle"][f] == 4:
+            prog.append(("class", "Fiber%d" % f, None,
+                         ("init", ["tag"], [("expr", ("assign", ("prop", ("self",), "tag"), V("tag")))]),
+                         [("run", ["p_" + chan_name(c) for c in params], [("let", "tag", ("prop", ("self",), "tag"))] + body)], []))
+        elif net["argstyle"][f] == 3:
             # the maker returns the fiber's body as a closure over its own parameters
             prog.append(("fn", "fiber%d" % f, ["tag"] + ["p_" + chan_name(c) for c in params],
                          [("return", ("lambda", [], ("block", body)))]))
